@@ -50,7 +50,7 @@ def boom(i, msg="bad"):
 '''
 KINDS = ['assign', 'emit', 'val', 'str', 'for', 'def', 'call', 'if', 'raise', 'raise_multi', 'semi', 'mlist', 'comment_ex',
          'skip', 'ellipsis', 'nws', 'blank', 'dict', 'none', 'ied', 'try', 'pv', 'while', 'with', 'raise_builtin', 'strrepr',
-         'float', 'tuple', 'printmulti', 'escstr', 'forval', 'ifval', 'onlyblank', 'ied_dot']
+         'float', 'tuple', 'printmulti', 'escstr', 'forval', 'ifval', 'onlyblank', 'ied_dot', 'print_then_raise']
 
 
 def required_cells(tier):
@@ -128,6 +128,9 @@ def gen_example(rng, i, defined):
         src = ['T.append(%d)' % i]
     elif k == 'ied':
         src = ['boom(%d, "detail%d")  # doctest: +IGNORE_EXCEPTION_DETAIL' % (i, i)]
+    elif k == 'print_then_raise':
+        # text printed before an expected exception is ignored by the standard module
+        src = ['emit(%d) or boom(%d, "after output %d")' % (i, i, i)]
     elif k == 'ied_dot':
         # the real message holds a period, the documented detail differs and has none
         src = ['boom(%d, "ratio must be below 1.5 (%d)")  # doctest: +IGNORE_EXCEPTION_DETAIL' % (i, i)]
@@ -304,7 +307,7 @@ def check_case(ctx, index, seed, doc_override=None):
         return
     ctx.evaluation()
     ctx.event('stdlib_doctest_passes')
-    if any(e['kind'] in ('for', 'def', 'if', 'try', 'while', 'with', 'raise', 'raise_multi', 'ied', 'ied_dot', 'raise_builtin')
+    if any(e['kind'] in ('for', 'def', 'if', 'try', 'while', 'with', 'raise', 'raise_multi', 'ied', 'ied_dot', 'raise_builtin', 'print_then_raise')
            for e in examples) and len(doc.split('\n')) > len([e for e in examples]):
         ctx.nontrivial(doc)
 
